@@ -75,11 +75,19 @@ class _Rec:
         self.w.append((addr, bytes(data), flush_queue))
 
 
+_led_obj = {}
+
+
 def _impl_led(colors, intensity):
-    """colors: list of 12 (r,g,b); returns list of 12 big-endian 565 words or raise marker."""
+    """colors: list of 12 (r,g,b); returns list of 12 big-endian 565 words.  All writes of a run go through ONE
+    LEDDriverMemory object (as an application does): what is written must depend on the current colours and
+    intensity only, never on what was written before."""
     from cflib.crazyflie.mem.led_driver_memory import LEDDriverMemory
-    rec = _Rec()
-    m = LEDDriverMemory(id=4, type=0x10, size=24, mem_handler=rec)
+    if 'm' not in _led_obj:
+        rec = _Rec()
+        _led_obj['m'] = (LEDDriverMemory(id=4, type=0x10, size=24, mem_handler=rec), rec)
+    m, rec = _led_obj['m']
+    del rec.w[:]
     for led, (r, g, b) in zip(m.leds, colors):
         led.r, led.g, led.b, led.intensity = r, g, b, intensity
     m.write_data(None)
@@ -155,8 +163,16 @@ def tie_fp16_led(ctx):
                     dis.append({'what': 'LED RGB565: model and implementation differ', 'level': k // 4,
                                 'intensity': bi, 'which': ['R', 'G', 'B', 'gray'][k % 4],
                                 'model': None if mv is None else mv[k], 'impl': exp[bi][k]})
+    # intensity sweeps with unchanged colours on the same object (fade in / fade out), printed in full: small
+    sweeps = []
+    fixed_sets = [[(255, 255, 255)] * 12,
+                  [(255, 0, 0), (0, 255, 0), (0, 0, 255), (8, 8, 8), (9, 4, 9), (128, 128, 128)] * 2,
+                  [(ctx.rng.randrange(256), ctx.rng.randrange(256), ctx.rng.randrange(256)) for _ in range(12)]]
+    for cols in fixed_sets:
+        for i in [10, 100, 55, 0, 1, 100, 99, 37, 100]:
+            sweeps.append((cols, i))
     # random 12-LED mixes (printed in full: small)
-    mixes = []
+    mixes = list(sweeps)
     for _ in range(ctx.scale(300, 3000)):
         cols = [(ctx.rng.randrange(256), ctx.rng.randrange(256), ctx.rng.randrange(256)) for _ in range(12)]
         mixes.append((cols, ctx.rng.randrange(0, 101)))
@@ -208,6 +224,7 @@ def oracle_fp16_led(ctx, deep=False):
     try:
         if _impl_led([(0, 0, 0)] * 12, 100) != [0] * 12:
             fails.append({'class': 'led_black_not_zero', 'case': {'fn': 'led', 'colors': [0, 0, 0], 'intensity': 100}})
+        _impl_led([(255, 255, 255)] * 12, 10)       # same colour first written dimmed, then at full intensity
         if _impl_led([(255, 255, 255)] * 12, 100) != [0xFFFF] * 12:
             fails.append({'class': 'led_white_not_full', 'case': {'fn': 'led', 'colors': [255, 255, 255], 'intensity': 100}})
         for i in ([100, 1, 37, 50, 99] if not deep else range(1, 101)):
@@ -488,7 +505,9 @@ def _gen_start(rng, n):
 def _impl_start(c):
     from cflib.crazyflie.mem.trajectory_memory import CompressedStart
     try:
-        return list(CompressedStart(*c).pack())
+        o = CompressedStart(*c)
+        a, b = list(o.pack()), list(o.pack())      # packing is a function of the fields: a second pack() must agree
+        return a if a == b else [-2] + b
     except (struct.error, OverflowError, ValueError):
         return [-1]
 
@@ -509,7 +528,9 @@ def _gen_seg(rng, n):
 def _impl_seg(c):
     from cflib.crazyflie.mem.trajectory_memory import CompressedSegment
     try:
-        return list(CompressedSegment(*c).pack())
+        o = CompressedSegment(*c)
+        a, b = list(o.pack()), list(o.pack())      # (the same segment object is uploaded again to another slot / Crazyflie)
+        return a if a == b else [-2] + b
     except (struct.error, OverflowError, ValueError):
         return [-1]
 
@@ -623,6 +644,9 @@ def _check_segment(c):
             return {'class': 'traj_segment_raises_in_range', 'case': {'fn': 'traj_segment', 'args': args}, 'observed': 'raised'}
         return None
     n = len(exact)
+    if out[:1] == [-2]:
+        return {'class': 'traj_segment_second_pack_differs', 'case': {'fn': 'traj_segment', 'args': args}, 'observed': out[1:],
+                'detail': 'packing the same segment object a second time gives different bytes'}
     if len(out) != 3 + 2 * n:
         return {'class': 'traj_segment_layout', 'case': {'fn': 'traj_segment', 'args': args}, 'observed': out}
     types = out[0]
